@@ -64,7 +64,16 @@ Section Scripts.
       else brackets_v t stack
     end.
 
-  Inductive vkind := VKNone | VKBrackets | VKScript.
+  (* the scripted validator with a verdict on the EMPTY text that is not Valid: " <-- required" / Incomplete *)
+  Definition script_validate_req (line : str) : vresult :=
+    match line with
+    | [] => VRInvalid (Some [32; 60; 45; 45; 32; 114; 101; 113; 117; 105; 114; 101; 100]%N)
+    | _ => script_validate line
+    end.
+  Definition script_validate_inc (line : str) : vresult :=
+    match line with [] => VRIncomplete | _ => script_validate line end.
+
+  Inductive vkind := VKNone | VKBrackets | VKScript | VKScriptReq | VKScriptInc.
 
   Definition mk_config (mode : edit_mode) (ct : completion_type) (timeout_none : bool) (cols : nat)
              (has_helper : bool) (cands hints : list str) (vk : vkind)
@@ -75,6 +84,8 @@ Section Scripts.
            | VKNone => fun _ => VRValid None
            | VKBrackets => fun l => brackets_v l []
            | VKScript => script_validate
+           | VKScriptReq => script_validate_req
+           | VKScriptInc => script_validate_inc
            end)
           bindings
           (KChar 68, M_CTRL) (KChar 67, M_CTRL) (KChar 92, M_CTRL) (KChar 90, M_CTRL).
